@@ -46,6 +46,8 @@ func checkC17(c *Check) {
 	ruleInitTransition(c, p, "R17.10")
 	ruleCloseWAlwaysCloses(c, p, "R17.19")
 	c.RuleDoc["R17.19"] = "= R08.15: Close waits for the block pipeline on every path (legacy frames included): data accepted before Close is in the sink when Close returns"
+	ruleReaderDst(c, p, "R17.20")
+	c.RuleDoc["R17.20"] = "= R02.6: every block is decoded into the whole block buffer, whatever the previous block left in the slice header"
 	ruleTerminalStatesStay(c, p, "R17.18")
 	c.RuleDoc["R17.18"] = "terminal states are left only by Reset: no transition is registered or performed while the state word may be closedState (or errorState for deferred transitions)"
 	c.RuleDoc["R17.10"] = "the first-use initialisation is followed by the state transition on every path"
